@@ -6,7 +6,7 @@ use rayon::iter::{
     IndexedParallelIterator, IntoParallelRefIterator, IntoParallelRefMutIterator, ParallelIterator,
 };
 
-use crate::CurveAffine;
+use crate::{Coordinates, CurveAffine};
 
 const BATCH_SIZE: usize = 64;
 
@@ -148,11 +148,17 @@ struct Affine<C: CurveAffine> {
 
 impl<C: CurveAffine> Affine<C> {
     fn from(point: &C) -> Self {
-        let coords = point.coordinates().unwrap();
-
-        Self {
-            x: *coords.x(),
-            y: *coords.y(),
+        // The identity has no affine coordinates. It contributes nothing to the
+        // sum and is never scheduled (see `msm_best`), so a placeholder is fine.
+        match Option::<Coordinates<C>>::from(point.coordinates()) {
+            Some(coords) => Self {
+                x: *coords.x(),
+                y: *coords.y(),
+            },
+            None => Self {
+                x: C::Base::ZERO,
+                y: C::Base::ZERO,
+            },
         }
     }
 
@@ -486,7 +492,7 @@ pub fn msm_best<C: CurveAffine>(coeffs: &[C::Scalar], bases: &[C]) -> C::Curve {
         for (base_idx, coeff) in coeffs.iter().enumerate() {
             let buck_idx = get_booth_index(w, c, coeff.as_ref());
 
-            if buck_idx != 0 {
+            if buck_idx != 0 && !bool::from(bases[base_idx].is_identity()) {
                 // parse bucket index
                 let sign = buck_idx.is_positive();
                 let buck_idx = buck_idx.unsigned_abs() as usize - 1;
